@@ -759,4 +759,454 @@ theorem timerLoopPopT_none_due (fuel : Nat) : ∀ (st : St) (now : TV), QInv st 
                 exact absurd hok (St.status_fail_ne _ _)
               · exact ih _ _ ((h1.trans (grow_free _ a).pres).qinv q)
 
+/-- The trace of the repaired loop, relative to the queue `st.timers` at its start:
+    * every invoked timer was in that queue or was allocated later (registered by a callback);
+    * for those that were in the queue, the recorded deadline is the one they were registered with;
+    * whenever `x` is invoked before `y` and `y` was already queued at the start, `x` has the smaller key
+      (earlier deadline, or equal deadline and registered earlier). -/
+theorem timerLoopPopT_trace (fuel : Nat) : ∀ (st : St) (now : TV), QInv st →
+    (∀ f ∈ (timerLoopPopT fuel st now).2, f.a ∈ st.timers ∨ st.heap.length ≤ f.a) ∧
+    (∀ f ∈ (timerLoopPopT fuel st now).2, f.a ∈ st.timers → f.due = dueOf st f.a) ∧
+    (timerLoopPopT fuel st now).2.Pairwise (fun x y => y.a ∈ st.timers → Fired.lt x y) := by
+  induction fuel with
+  | zero => intro st now _; simp [timerLoopPopT]
+  | succ n ih =>
+    intro st now q
+    unfold timerLoopPopT
+    split
+    · simp
+    · split
+      · simp
+      · rename_i a rest hq
+        have ha : a ∈ st.timers := by rw [hq]; exact List.mem_cons_self
+        split
+        · simp
+        · split
+          · simp
+          · simp only []
+            have hsingle :
+                (∀ f ∈ [(⟨a, (st.getW a).slot, (st.getW a).due⟩ : Fired)], f.a ∈ st.timers ∨ st.heap.length ≤ f.a) ∧
+                (∀ f ∈ [(⟨a, (st.getW a).slot, (st.getW a).due⟩ : Fired)], f.a ∈ st.timers → f.due = dueOf st f.a) ∧
+                [(⟨a, (st.getW a).slot, (st.getW a).due⟩ : Fired)].Pairwise (fun x y => y.a ∈ st.timers → Fired.lt x y) := by
+              refine ⟨?_, ?_, List.pairwise_singleton _ _⟩
+              · intro f hf; simp only [List.mem_singleton] at hf; subst hf; exact Or.inl ha
+              · intro f hf _; simp only [List.mem_singleton] at hf; subst hf; rfl
+            split
+            · exact hsingle
+            · split
+              · exact hsingle
+              · -- the recursive case
+                have p0 : Pres { st with timers := rest }
+                    ((fireUser { st with timers := rest } (st.getW a).slot (EV_FIRE ||| EV_UNBIND) .none).free a) :=
+                  (pres_fireUser _ _ _ _).trans (grow_free _ a).pres
+                have p : Pres st ((fireUser { st with timers := rest } (st.getW a).slot (EV_FIRE ||| EV_UNBIND) .none).free a) :=
+                  (grow_pop st a rest hq).trans p0
+                generalize ((fireUser { st with timers := rest } (st.getW a).slot (EV_FIRE ||| EV_UNBIND) .none).free a) = s2 at p0 p ⊢
+                obtain ⟨hC, hD, hB⟩ := ih s2 now (p.qinv q)
+                -- a timer of the initial queue that is invoked later is still queued in `s2`
+                have still : ∀ f ∈ (timerLoopPopT n s2 now).2, f.a ∈ st.timers → f.a ∈ s2.timers ∧ f.a ∈ rest := by
+                  intro f hf hin
+                  have hlt : f.a < st.heap.length := q.alloc _ hin
+                  have h2 : f.a ∈ s2.timers := by
+                    cases hC f hf with
+                    | inl h => exact h
+                    | inr h => have := p.ext.len; omega
+                  refine ⟨h2, ?_⟩
+                  cases p0.mem _ h2 with
+                  | inl h => exact h
+                  | inr h => have : st.heap.length ≤ f.a := h; omega
+                refine ⟨?_, ?_, ?_⟩
+                · intro f hf
+                  simp only [List.mem_cons] at hf
+                  cases hf with
+                  | inl h => subst h; exact Or.inl ha
+                  | inr h =>
+                    cases hC f h with
+                    | inl h2 => exact p.mem _ h2
+                    | inr h2 => exact Or.inr (Nat.le_trans p.ext.len h2)
+                · intro f hf hin
+                  simp only [List.mem_cons] at hf
+                  cases hf with
+                  | inl h => subst h; rfl
+                  | inr h =>
+                    rw [hD f h (still f h hin).1]
+                    exact p.ext.due _ (q.alloc _ hin)
+                · rw [List.pairwise_cons]
+                  refine ⟨?_, ?_⟩
+                  · intro y hy hin
+                    have hrest := (still y hy hin).2
+                    have hk := q.head_min hq y.a hrest
+                    have hdue : y.due = dueOf st y.a := by
+                      rw [hD y hy (still y hy hin).1]
+                      exact p.ext.due _ (q.alloc _ hin)
+                    unfold Fired.lt
+                    unfold keyLt at hk
+                    rw [hdue]
+                    exact hk
+                  · refine List.Pairwise.imp_of_mem ?_ hB
+                    intro x y _ hy hxy hin
+                    exact hxy (still y hy hin).1
+
+/-! ### 5. the invariant holds in every reachable state -/
+
+theorem getW_setListOf (st : St) (t : WType) (l : List Nat) (a : Nat) : (setListOf st t l).getW a = st.getW a := by
+  cases t <;> rfl
+
+theorem pres_unlinkOneshot (st : St) (a : Nat) : Pres st (unlinkOneshot st a) := by
+  unfold unlinkOneshot
+  split
+  · exact (grow_fail _ _).pres
+  · split
+    · exact Pres.refl _
+    · split
+      · exact (grow_fail _ _).pres
+      · split
+        · exact Pres.refl _
+        · refine (pres_setListOf_erase st (st.getW a).type _ a rfl).trans ?_
+          refine (Grow.trans (grow_setW _ a _ ?_) (grow_free _ a)).pres
+          rw [getW_setListOf]
+
+theorem pres_fireIf (st : St) (c : Prop) [Decidable c] (k : Int) (flags : Nat) (info : Info) :
+    Pres st (if c then fireUser st k flags info else st) := by
+  split
+  · exact pres_fireUser _ _ _ _
+  · exact Pres.refl _
+
+theorem pres_invokeWatch (st : St) (a : Nat) (flags : Nat) (info : Info) : Pres st (invokeWatch st a flags info) := by
+  unfold invokeWatch
+  have hf := pres_fireIf st ((st.getW a).slot ≥ 0) (st.getW a).slot flags info
+  generalize (if (st.getW a).slot ≥ 0 then fireUser st (st.getW a).slot flags info else st) = s1 at hf ⊢
+  split
+  · exact Pres.refl _
+  · split
+    · exact (grow_fail _ _).pres
+    · split
+      · exact hf
+      · exact hf.trans (pres_unlinkOneshot _ a)
+
+theorem grow_waitpidV (st : St) (pid : Int) : Grow st (waitpidV st pid).st := by
+  unfold waitpidV
+  split
+  · exact grow_waitpid _ _
+  · exact Grow.refl _
+
+theorem pres_procStep (st : St) (a : Nat) : Pres st (procStep st a) := by
+  unfold procStep
+  split
+  · exact (grow_waitpidV _ _).pres
+  · exact (grow_waitpidV _ _).pres.trans (pres_invokeWatch _ _ _ _)
+
+theorem pres_outOfFuel (st : St) : Pres st (if st.isOk then { st with status := .outOfFuel } else st) := by
+  split
+  · exact (grow_with_status _ _).pres
+  · exact Pres.refl _
+
+theorem pres_onSigchld (fuel : Nat) : ∀ (st : St) (this : Option Nat), Pres st (onSigchld fuel st this) := by
+  induction fuel with
+  | zero => intro st this; unfold onSigchld; exact pres_outOfFuel st
+  | succ n ih =>
+    intro st this
+    unfold onSigchld
+    split
+    · exact Pres.refl _
+    · split
+      · exact Pres.refl _
+      · split
+        · exact (grow_fail _ _).pres
+        · exact (pres_procStep _ _).trans (ih _ _)
+
+theorem pres_processNotify (st : St) (a : Nat) : Pres st (processNotify st a) := by
+  unfold processNotify
+  split
+  · exact (grow_fail _ _).pres
+  · exact pres_invokeWatch _ _ _ _
+
+theorem pres_laterCb (st : St) (a : Nat) : Pres st (laterCb st a) := by
+  unfold laterCb
+  split
+  · exact pres_fireUser _ _ _ _
+  · split
+    · exact pres_processNotify _ _
+    · exact Pres.refl _
+
+theorem pres_laterLoop (l : List Nat) : ∀ st : St, Pres st (laterLoop st l) := by
+  induction l with
+  | nil => intro st; exact Pres.refl st
+  | cons a rest ih =>
+    intro st
+    unfold laterLoop
+    split
+    · exact Pres.refl _
+    · split
+      · exact (grow_fail _ _).pres
+      · split
+        · exact pres_laterCb _ _
+        · split
+          · exact (pres_laterCb _ _).trans (grow_fail _ _).pres
+          · exact ((pres_laterCb _ _).trans (grow_free _ a).pres).trans (ih _)
+
+/-- The loop as shipped. -/
+theorem pres_timerLoopT (fuel : Nat) : ∀ (st : St) (now : TV) (this : Option Nat), Pres st (timerLoopT fuel st now this).1 := by
+  induction fuel with
+  | zero => intro st now this; unfold timerLoopT; exact pres_outOfFuel st
+  | succ n ih =>
+    intro st now this
+    unfold timerLoopT
+    split
+    · exact Pres.refl _
+    · split
+      · exact Pres.refl _
+      · rename_i a
+        split
+        · exact (grow_fail _ _).pres
+        · split
+          · exact Pres.refl _
+          · simp only []
+            split
+            · exact pres_fireUser _ _ _ _
+            · split
+              · exact (pres_fireUser _ _ _ _).trans (grow_fail _ _).pres
+              · exact ((pres_fireUser _ _ _ _).trans (grow_free _ a).pres).trans (ih _ _ _)
+
+theorem suffixFrom_sublist (a : Option Nat) (l : List Nat) : (suffixFrom a l).Sublist l := by
+  unfold suffixFrom
+  split
+  · exact List.nil_sublist _
+  · exact (List.dropWhile_suffix _).sublist
+
+theorem pres_with_timers_sublist (st : St) (l : List Nat) (h : l.Sublist st.timers) : Pres st { st with timers := l } :=
+  ⟨HeapExt.of_heap_eq rfl, fun q => q.of_sublist (HeapExt.of_heap_eq rfl) h, fun _ hx => Or.inl (h.subset hx)⟩
+
+theorem pres_timerPhaseShipped (fuel : Nat) (st : St) (now : TV) : Pres st (timerPhaseShipped fuel st now) := by
+  unfold timerPhaseShipped timerLoop
+  simp only []
+  split
+  · exact (pres_timerLoopT _ _ _ _).trans (pres_with_timers_sublist _ _ (suffixFrom_sublist _ _))
+  · exact pres_timerLoopT _ _ _ _
+
+theorem pres_timerPhase (fuel : Nat) (st : St) : Pres st (timerPhase fuel st) := by
+  unfold timerPhase
+  split
+  · exact Pres.refl _
+  · split
+    · exact (grow_emit _ _).pres.trans (pres_timerLoopPopT _ _ _)
+    · exact (grow_emit _ _).pres.trans (pres_timerPhaseShipped _ _ _)
+
+theorem pres_invokeTimers (fuel : Nat) (st : St) : Pres st (invokeTimers fuel st) := by
+  unfold invokeTimers
+  split
+  · exact Pres.refl _
+  · exact ((grow_with_laters st []).pres.trans (pres_timerPhase _ _)).trans (pres_laterLoop _ _)
+
+theorem pres_sigCb (fuel : Nat) (st : St) (a : Nat) (s : Int) : Pres st (sigCb fuel st a s) := by
+  unfold sigCb
+  split
+  · split
+    · exact pres_fireUser _ _ _ _
+    · split
+      · exact pres_onSigchld _ _ _
+      · exact Pres.refl _
+  · exact Pres.refl _
+
+theorem pres_sigwatchLoop (fuel : Nat) : ∀ (st : St) (s : Int) (this : Option Nat), Pres st (sigwatchLoop fuel st s this) := by
+  induction fuel with
+  | zero => intro st s this; unfold sigwatchLoop; exact pres_outOfFuel st
+  | succ n ih =>
+    intro st s this
+    unfold sigwatchLoop
+    split
+    · exact Pres.refl _
+    · split
+      · exact Pres.refl _
+      · split
+        · exact (grow_fail _ _).pres
+        · split
+          · exact pres_sigCb _ _ _ _
+          · split
+            · exact (pres_sigCb _ _ _ _).trans (grow_fail _ _).pres
+            · exact (pres_sigCb _ _ _ _).trans (ih _ _ _)
+
+theorem pres_dispatchLoop (fuel : Nat) (pending : List Int) (l : List Int) : ∀ st : St, Pres st (dispatchLoop fuel st pending l) := by
+  induction l with
+  | nil => intro st; exact Pres.refl st
+  | cons s rest ih =>
+    intro st
+    unfold dispatchLoop
+    refine Pres.trans ?_ (ih _)
+    split
+    · exact pres_sigwatchLoop _ _ _ _
+    · exact Pres.refl _
+
+theorem grow_with_pendingSig (st : St) (l : List Int) : Grow st { st with pendingSig := l } := Grow.of_eq rfl rfl
+
+theorem pres_dispatchSignals (fuel : Nat) (st : St) : Pres st (dispatchSignals fuel st) := by
+  unfold dispatchSignals
+  exact (grow_with_pendingSig st []).pres.trans (pres_dispatchLoop _ _ _ _)
+
+theorem pres_ioCb (st : St) (s : PollSlot) : Pres st (ioCb st s) := by
+  unfold ioCb
+  split
+  · split
+    · exact (grow_fail _ _).pres
+    · exact pres_invokeWatch _ _ _ _
+  · exact Pres.refl _
+
+theorem pres_ioLoop (fuel : Nat) : ∀ (st : St) (idx : Nat), Pres st (ioLoop fuel st idx) := by
+  induction fuel with
+  | zero => intro st idx; unfold ioLoop; exact pres_outOfFuel st
+  | succ n ih =>
+    intro st idx
+    unfold ioLoop
+    split
+    · exact Pres.refl _
+    · split
+      · exact Pres.refl _
+      · split
+        · exact ih _ _
+        · split
+          · exact ih _ _
+          · exact (pres_ioCb _ _).trans (ih _ _)
+
+theorem grow_foldl_raiseSig (l : List Int) : ∀ st : St, Grow st (l.foldl raiseSig st) := by
+  induction l with
+  | nil => intro st; exact Grow.refl st
+  | cons s rest ih => intro st; exact (grow_raiseSig st s).trans (ih _)
+
+theorem grow_pollScan (st : St) : Grow st (pollScan st) := Grow.of_eq rfl rfl
+theorem grow_with_inpoll (st : St) (l : List Int) : Grow st { st with inpoll := l } := Grow.of_eq rfl rfl
+
+theorem grow_pollRaise (st : St) : Grow st (pollRaise st) := by
+  unfold pollRaise
+  exact (grow_with_inpoll st []).trans (grow_foldl_raiseSig _ _)
+
+theorem grow_pollTimeout (st : St) (t : Option Int) : Grow st (pollTimeout st t) := by
+  unfold pollTimeout
+  split
+  · exact Grow.of_eq rfl rfl
+  · exact Grow.refl _
+
+theorem grow_deliverPending (st : St) : Grow st (deliverPending st) := Grow.of_eq rfl rfl
+
+theorem grow_ppoll (st : St) (t : Option Int) : Grow st (ppoll st t).1 := by
+  unfold ppoll
+  split
+  · exact (grow_pollScan st).trans (grow_pollRaise _)
+  · split
+    · exact ((grow_pollScan st).trans (grow_pollRaise _)).trans (grow_emit _ _)
+    · split
+      · exact ((((grow_pollScan st).trans (grow_pollRaise _)).trans (grow_deliverPending _)).trans (grow_with_errno _ _)).trans (grow_emit _ _)
+      · exact (((grow_pollScan st).trans (grow_pollRaise _)).trans (grow_pollTimeout _ _)).trans (grow_emit _ _)
+
+theorem grow_nextTimerMsec (st : St) : Grow st (nextTimerMsec st).1 := by
+  unfold nextTimerMsec
+  split
+  · exact Grow.refl _
+  · split
+    · exact Grow.refl _
+    · split
+      · exact (grow_emit _ _).trans (grow_fail _ _)
+      · exact grow_emit _ _
+
+theorem pres_tickAfterPoll (fuel : Nat) (st : St) (ret : Option Nat) : Pres st (tickAfterPoll fuel st ret) := by
+  unfold tickAfterPoll
+  split
+  · exact pres_invokeTimers _ _
+  · split
+    · split
+      · exact (pres_invokeTimers _ _).trans (pres_ioLoop _ _ _)
+      · exact pres_invokeTimers _ _
+    · split
+      · exact (pres_invokeTimers _ _).trans (pres_dispatchSignals _ _)
+      · exact pres_invokeTimers _ _
+
+theorem pres_tick (fuel : Nat) (st : St) (nohang : Bool) : Pres st (tick fuel st nohang) := by
+  unfold tick
+  split
+  · exact Pres.refl _
+  · split
+    · exact (grow_nextTimerMsec _).pres
+    · split
+      · exact ((grow_nextTimerMsec _).trans (grow_ppoll _ _)).pres
+      · exact ((grow_nextTimerMsec _).trans (grow_ppoll _ _)).pres.trans (pres_tickAfterPoll _ _ _)
+
+theorem grow_destroyNotify (st : St) (a : Nat) : Grow st (destroyNotify st a) := by
+  unfold destroyNotify
+  split
+  · exact grow_notify _ _ _
+  · exact Grow.refl _
+
+theorem grow_destroyList (t : WType) (l : List Nat) : ∀ st : St, Grow st (destroyList st t l) := by
+  induction l with
+  | nil => intro st; exact Grow.refl st
+  | cons a rest ih =>
+    intro st
+    unfold destroyList
+    split
+    · exact Grow.refl _
+    · split
+      · exact grow_fail _ _
+      · exact (((grow_destroyNotify _ _).trans (grow_cancelHook _ _ _)).trans (grow_free _ a)).trans (ih _)
+
+theorem pres_destroy (st : St) : Pres st (destroy st) := by
+  unfold destroy
+  split
+  · exact Pres.refl _
+  · have hc : Pres st (cancelSigchld st) := by
+      unfold cancelSigchld
+      split
+      · exact pres_watchCancel _ _
+      · exact Pres.refl _
+    have hd : ∀ (t : WType) (s : St), Pres s (destroyOf t s) := fun t s => (grow_destroyList t _ s).pres
+    have hf : ∀ s : St, Pres s (destroyFinish s) := by
+      intro s
+      unfold destroyFinish
+      split
+      · exact ⟨HeapExt.of_heap_eq rfl, fun q => q.of_sublist (HeapExt.of_heap_eq rfl) (List.nil_sublist _),
+          fun _ h => by cases h⟩
+      · exact Pres.refl _
+    exact (((((hc.trans (hd _ _)).trans (hd _ _)).trans (hd _ _)).trans (hd _ _)).trans (hd _ _)).trans (hf _)
+
+theorem pres_applyOp' (st : St) (op : Op) : Pres st (applyOp' st op) := by
+  unfold applyOp'
+  split
+  · exact Pres.refl _
+  · split
+    · exact Pres.refl _
+    · exact Pres.refl _
+    · exact Pres.refl _
+    · split
+      · exact Pres.refl _
+      · split
+        · exact Grow.pres (Grow.of_eq rfl rfl)
+        · exact pres_runAct _ _
+        · exact Grow.pres (Grow.of_eq rfl rfl)
+        · exact Grow.pres (Grow.of_eq rfl rfl)
+        · exact Grow.pres (Grow.of_eq rfl rfl)
+        · exact pres_tick _ _ _
+        · exact pres_tick _ _ _
+        · exact pres_destroy _
+        · exact Pres.refl _
+
+theorem pres_applyOp (st : St) (op : Op) : Pres st (applyOp st op) := by
+  unfold applyOp
+  exact (Pres.trans (Grow.pres (Grow.of_eq rfl rfl : Grow st { st with log := [] })) (pres_applyOp' _ _))
+
+theorem grow_with_log (st : St) (l : List Ev) : Grow st { st with log := l } := Grow.of_eq rfl rfl
+
+theorem qinv_build (cfg : Config) : QInv (build cfg) := by
+  have h0 : QInv (build0 cfg) := ⟨fun a h => (by cases h), List.Pairwise.nil⟩
+  unfold build
+  exact (((grow_watchIo _ _ _ _ _).trans (grow_watchSignal _ _ _ _)).trans (grow_with_log _ _)).pres.qinv h0
+
+/-- In every state any history can reach — under any variant of the source — the timer queue is
+    ordered by (deadline, registration). -/
+theorem qinv_runOps (cfg : Config) (ops : List Op) : QInv (runOps cfg ops) := by
+  unfold runOps
+  have : ∀ (l : List Op) (st : St), QInv st → QInv (l.foldl applyOp st) := by
+    intro l
+    induction l with
+    | nil => intro st h; exact h
+    | cons o rest ih => intro st h; exact ih _ ((pres_applyOp st o).qinv h)
+  exact this ops _ (qinv_build cfg)
+
 end Tickit.EvLoop
